@@ -10,11 +10,11 @@ import (
 	"sort"
 	"strconv"
 	"strings"
+	"sync"
 	"time"
 
 	"golang.org/x/tools/go/packages"
 	"golang.org/x/tools/go/ssa"
-	"golang.org/x/tools/go/ssa/ssautil"
 )
 
 const (
@@ -80,12 +80,49 @@ func loadProgram(patterns []string, overlay map[string][]byte) (*loaded, error) 
 	}
 	ld.loadDur = time.Since(t0)
 	t1 := time.Now()
-	prog, spkgs := ssautil.AllPackages(pkgs, ssa.InstantiateGenerics)
-	prog.Build()
+	// Like ssautil.AllPackages, but packages that merely *depend* on an ill-typed package
+	// (flux's cgo binding cannot be type-checked with CGO_ENABLED=0) are still created and
+	// built; only packages with type errors of their own are created without bodies.
+	var fset = pkgs[0].Fset
+	prog := ssa.NewProgram(fset, ssa.InstantiateGenerics)
+	var toBuild []*ssa.Package
+	byPath := map[string]*ssa.Package{}
+	packages.Visit(pkgs, nil, func(p *packages.Package) {
+		if p.Types == nil || p.TypesInfo == nil {
+			return
+		}
+		sp := prog.CreatePackage(p.Types, p.Syntax, p.TypesInfo, true)
+		byPath[p.PkgPath] = sp
+		if len(p.Errors) == 0 {
+			toBuild = append(toBuild, sp)
+		} else {
+			ld.errs[p.PkgPath] = append(ld.errs[p.PkgPath], p.Errors[0].Error())
+		}
+	})
+	var wg sync.WaitGroup
+	sem := make(chan struct{}, runtime.NumCPU())
+	var bmu sync.Mutex
+	for _, sp := range toBuild {
+		wg.Add(1)
+		sem <- struct{}{}
+		go func(sp *ssa.Package) {
+			defer wg.Done()
+			defer func() { <-sem }()
+			defer func() {
+				if r := recover(); r != nil {
+					bmu.Lock()
+					ld.errs[sp.Pkg.Path()] = append(ld.errs[sp.Pkg.Path()], fmt.Sprintf("ssa build panic: %v", r))
+					bmu.Unlock()
+				}
+			}()
+			sp.Build()
+		}(sp)
+	}
+	wg.Wait()
 	ld.prog = prog
-	for i, p := range pkgs {
-		if spkgs[i] != nil {
-			ld.pkgs[p.PkgPath] = spkgs[i]
+	for _, p := range pkgs {
+		if sp := byPath[p.PkgPath]; sp != nil {
+			ld.pkgs[p.PkgPath] = sp
 		}
 	}
 	ld.npkgs = len(prog.AllPackages())
